@@ -185,41 +185,37 @@ inductive Ty where
   | ref | known | list | nonNull
   deriving DecidableEq, Repr, Inhabited
 
-/-- `readType`: (t, err) exactly as the Go function returns them (both may be non-nil) -/
+/-- the tail of `readType`: `if err == nil && t != nil { b, err = p.skipSpace(); if err == nil && b == '!' { … } }` -/
+def bang (t : Ty) (p : P) : (Option Ty × Option Err) × P :=
+  match skipSp cm p with
+  | (none, p) => ((some t, some ioErr), p)
+  | (some b, p) => if b == 33 then ((some .nonNull, none), reRead p) else ((some t, none), p)
+
+/-- `readType`: (t, err) exactly as the Go function returns them (both may be non-nil).  The `!` look-ahead
+runs exactly where the Go code reaches its tail with `err == nil && t != nil`: after a closed list and
+after a named type. -/
 def readType : Nat → P → (Option Ty × Option Err) × P
   | 0, p => ((none, some ioErr), p.outOfFuel)
   | n + 1, p =>
-    let r : (Option Ty × Option Err) × P :=
-      match skipSp cm p with
-      | (none, p) => ((none, some ioErr), p)
-      | (some b, p) =>
-        if b == 0 then ((none, none), p)           -- `return` inside the switch: no `!` look-ahead
-        else if b == 91 then
-          let p := reRead p
-          match readType n p.enter with
-          | ((t, some e), p) => ((t, some e), p.leave)
-          | ((t, none), p) =>
-            let p := p.leave
-            (match skipSp cm p with
-             | (none, p) => ((none, some ioErr), p)
-             | (some b, p) =>
-               if b == 93 then ((some .list, none), reRead p)
-               else ((t, some p.perr), p))
-        else
-          match readToken cm p with
-          | ((_, true), p) => ((none, some ioErr), p)
-          | ((tok, false), p) =>
-            if tok.isEmpty then ((none, none), p)
-            else ((some (if cm.known tok then .known else .ref), none), p)
-    match r with
-    | ((some t, none), p) =>
-      -- `if err == nil && t != nil { b, err = p.skipSpace(); … }`
-      (match skipSp cm p with
-       | (none, p) => ((some t, some ioErr), p)
-       | (some b, p) => if b == 33 then ((some .nonNull, none), reRead p) else ((some t, none), p))
-    | r => r
--- note: the `case 0: return` of the Go switch returns before the `!` look-ahead; with t = nil the
--- look-ahead is skipped anyway, so the two coincide.
+    match skipSp cm p with
+    | (none, p) => ((none, some ioErr), p)
+    | (some b, p) =>
+      if b == 0 then ((none, none), p)           -- `return` inside the switch
+      else if b == 91 then
+        match readType n (reRead p).enter with
+        | ((t, some e), p) => ((t, some e), p.leave)
+        | ((t, none), p) =>
+          (match skipSp cm p.leave with
+           | (none, p) => ((none, some ioErr), p)
+           | (some b, p) =>
+             if b == 93 then bang cm .list (reRead p)
+             else ((t, some p.perr), p))
+      else
+        match readToken cm p with
+        | ((_, true), p) => ((none, some ioErr), p)
+        | ((tok, false), p) =>
+          if tok.isEmpty then ((none, none), p)
+          else bang cm (if cm.known tok then .known else .ref) p
 
 /-- `readEscaped` (the backslash has been consumed) -/
 def readEscaped (p : P) : Option Err × P :=
@@ -303,6 +299,13 @@ def readDesc (p : P) : Option Err × P := readString cm p
 
 def isNumStart (b : UInt8) : Bool := b == 45 || (48 ≤ b && b ≤ 57)
 
+/-- an object key: a string when the byte on deck is a quote, a token otherwise -/
+def readKey (b : UInt8) (p : P) : Option Err × P :=
+  if b == 34 then readString cm p
+  else (match readToken cm p with
+        | ((_, true), p) => (some ioErr, p)
+        | ((_, false), p) => (none, p))
+
 mutual
 /-- `readValue` (value dropped) -/
 def readValue : Nat → P → Option Err × P
@@ -364,12 +367,7 @@ def readObjBody : Nat → P → Option Err × P
       if b == 0 then (some p.perr, p)
       else if b == 125 then (none, reRead p)
       else
-        let key : Option Err × P :=
-          if b == 34 then readString cm p
-          else (match readToken cm p with
-                | ((_, true), p) => (some ioErr, p)
-                | ((_, false), p) => (none, p))
-        match key with
+        match readKey cm b p with
         | (some e, p) => (some e, p)
         | (none, p) =>
           match skipSp cm p with
